@@ -23,6 +23,10 @@ structure EnvOK (E : Env) : Prop where
 /-- Accepted ⇒ in the domain and the documented conversion. -/
 def Good (E : Env) (t : TraitType) (v w : Val) : Prop := inDomain E t w = true ∧ Conv E t v w
 
+theorem ite_ok {c : Prop} [Decidable c] {x w : Val}
+    (h : (if c then Res.ok x else Res.traitError) = Res.ok w) : c ∧ x = w := by
+  split at h <;> simp_all
+
 theorem seqContains_yes_isMember (vals : List Val) (v : Val) (h : seqContains vals v = .yes) :
     isMember vals v = true := by
   induction vals with
@@ -295,55 +299,62 @@ theorem py_prefixMap_ok (keys : List String) (vals : List Val) (v w : Val)
     obtain ⟨⟨s', h1, h2⟩, h3⟩ := completeValue_ok keys v w s hs h
     exact ⟨by simp only [inDomain, h1, h2], h3⟩
 
-theorem ite_ok {c : Prop} [Decidable c] {x w : Val}
-    (h : (if c then Res.ok x else Res.traitError) = Res.ok w) : c ∧ x = w := by
-  split at h <;> simp_all
-
 /-- What `asarray(value, dtype)` returns has that dtype (numpy fact; `EnvOK` does
 not cover it, so it is a hypothesis of the Array lemmas). -/
 def AsarrayTyped (E : Env) : Prop := ∀ v t d s, E.asarray v (some t) = .ok (d, s) → d = t
 
 theorem arrayStage1_ok (hA : AsarrayTyped E) (dt : Option Nat) (c : Nat) (v x : Val) (s' : List Nat)
     (h : arrayStage1 E dt c v = some (x, s')) :
-    (∃ d', x = .atom (.ndarray d' s') ∧ (match dt with | none => True | some t => d' = t)) ∧
+    (∃ d', x = .atom (.ndarray d' s') ∧ (∀ t, dt = some t → d' = t)) ∧
     Conv E (.array dt none c) v x := by
-  unfold arrayStage1 at h
+  have hseq : ∀ v' d s, E.asarray v' dt = .ok (d, s) → some (Val.atom (.ndarray d s), s) = some (x, s') →
+      (∃ d', x = .atom (.ndarray d' s') ∧ (∀ t, dt = some t → d' = t)) ∧
+      (∃ d s, E.asarray v' dt = .ok (d, s) ∧ x = .atom (.ndarray d s)) := by
+    intro v' d s has heq
+    simp only [Option.some.injEq, Prod.mk.injEq] at heq
+    obtain ⟨rfl, rfl⟩ := heq
+    refine ⟨⟨d, rfl, ?_⟩, ⟨d, s, has, rfl⟩⟩
+    intro t ht; subst ht; exact hA _ t d s has
   rcases v with a | ⟨sub, vs⟩ | vs
-  · cases a <;> simp at h
+  · cases a
     case ndarray d s =>
+      simp only [arrayStage1] at h
       cases dt with
-      | none => simp at h; obtain ⟨rfl, rfl⟩ := h; exact ⟨⟨d, rfl, trivial⟩, Or.inl rfl⟩
+      | none =>
+        simp only [Option.some.injEq, Prod.mk.injEq] at h
+        obtain ⟨rfl, rfl⟩ := h
+        exact ⟨⟨d, rfl, by intro t ht; cases ht⟩, Or.inl rfl⟩
       | some t =>
         simp only at h
         by_cases hdt : d = t
-        · subst hdt; simp at h; obtain ⟨rfl, rfl⟩ := h
-          exact ⟨⟨d, rfl, rfl⟩, Or.inl rfl⟩
-        · have : (d == t) = false := by simpa using hdt
-          simp only [this, Bool.false_eq_true, if_false] at h
+        · subst hdt
+          simp only [beq_self_eq_true, if_true, Option.some.injEq, Prod.mk.injEq] at h
+          obtain ⟨rfl, rfl⟩ := h
+          exact ⟨⟨d, rfl, by intro t ht; cases ht; rfl⟩, Or.inl rfl⟩
+        · have hne : (d == t) = false := by simpa using hdt
+          simp only [hne, Bool.false_eq_true, if_false] at h
           by_cases hcc : E.canCast d t c = true
-          · simp [hcc] at h; obtain ⟨rfl, rfl⟩ := h
-            exact ⟨⟨t, rfl, rfl⟩, Or.inr (Or.inl ⟨d, s, t, rfl, rfl, hcc, rfl⟩)⟩
+          · simp only [hcc, if_true, Option.some.injEq, Prod.mk.injEq] at h
+            obtain ⟨rfl, rfl⟩ := h
+            exact ⟨⟨t, rfl, by intro t' ht; cases ht; rfl⟩, Or.inr (Or.inl ⟨d, s, t, rfl, rfl, hcc, rfl⟩)⟩
           · simp [hcc] at h
-  · simp only at h
+    all_goals simp [arrayStage1] at h
+  · simp only [arrayStage1] at h
     cases has : E.asarray (.tuple sub vs) dt with
     | error e => simp [has] at h
     | ok q =>
       obtain ⟨d, s⟩ := q
-      simp [has] at h; obtain ⟨rfl, rfl⟩ := h
-      refine ⟨⟨d, rfl, ?_⟩, Or.inr (Or.inr ⟨d, s, has, rfl⟩)⟩
-      cases dt with
-      | none => trivial
-      | some t => exact hA _ t d s has
-  · simp only at h
+      simp only [has] at h
+      obtain ⟨h1, h2⟩ := hseq _ d s has h
+      exact ⟨h1, Or.inr (Or.inr h2)⟩
+  · simp only [arrayStage1] at h
     cases has : E.asarray (.list vs) dt with
     | error e => simp [has] at h
     | ok q =>
       obtain ⟨d, s⟩ := q
-      simp [has] at h; obtain ⟨rfl, rfl⟩ := h
-      refine ⟨⟨d, rfl, ?_⟩, Or.inr (Or.inr ⟨d, s, has, rfl⟩)⟩
-      cases dt with
-      | none => trivial
-      | some t => exact hA _ t d s has
+      simp only [has] at h
+      obtain ⟨h1, h2⟩ := hseq _ d s has h
+      exact ⟨h1, Or.inr (Or.inr h2)⟩
 
 theorem py_array_ok (hA : AsarrayTyped E) (dt : Option Nat) (sh : Option (List DimSpec)) (c : Nat) (v w : Val)
     (h : pyValidate E (.array dt sh c) v = .ok w) : Good E (.array dt sh c) v w := by
@@ -355,18 +366,20 @@ theorem py_array_ok (hA : AsarrayTyped E) (dt : Option Nat) (sh : Option (List D
     obtain ⟨⟨d', rfl, hd'⟩, hconv⟩ := arrayStage1_ok E hA dt c v x s' hst
     simp only [hst] at h
     have hconv' : Conv E (.array dt sh c) v (.atom (.ndarray d' s')) := by simpa [Conv] using hconv
-    have hdt : (match dt with | none => true | some t => d' == t) = true := by
-      cases dt with
-      | none => rfl
-      | some t => simpa using hd'
     cases sh with
     | none =>
       simp at h; subst h
-      exact ⟨by simp only [inDomain, hdt, Bool.and_self], hconv'⟩
+      refine ⟨?_, hconv'⟩
+      cases dt with
+      | none => simp [inDomain]
+      | some t => simp [inDomain, hd' t rfl]
     | some sp =>
       simp only at h
       obtain ⟨hs, rfl⟩ := ite_ok h
-      exact ⟨by simp only [inDomain, hdt, hs, Bool.and_self], hconv'⟩
+      refine ⟨?_, hconv'⟩
+      cases dt with
+      | none => simp [inDomain, hs]
+      | some t => simp [inDomain, hd' t rfl, hs]
 
 theorem sound_atomic_ctrait (hE : EnvOK E) (t : TraitType) (hs : t.subs = none) (hn : t.isNoFast = false)
     (hc : t.soundLeaf = true) (v w : Val) (h : ctraitValidate E t v = .ok w) : Good E t v w := by
@@ -876,7 +889,7 @@ theorem soundP_union (alts : List TraitType) (hQ : SoundQ E alts) : SoundP E (.u
 
 theorem pyEq_none_yes (v : Val) (h : Val.pyEq Val.none v = .yes) : v = Val.none := by
   rcases v with a | ⟨sub, vs⟩ | vs
-  · cases a <;> simp_all [Val.pyEq, Atom.pyEq, Atom.isNp, Atom.num, Atom.exactInt, Atom.asNpDouble, Atom.npBoolVsBigInt]
+  · cases a <;> simp_all [Val.pyEq, Atom.pyEq, Atom.isNp, Atom.num, Atom.exactInt, Atom.asNpDouble, Atom.npBoolVsBigInt, Atom.ndVsBigInt]
   · simp [Val.pyEq, Atom.isNp] at h
   · simp [Val.pyEq, Atom.isNp] at h
 
